@@ -555,7 +555,24 @@ pub fn exhaustive_strings(alphabet: &[String], max_len: usize, worker: usize, wo
     }
 }
 
+/// Every Unicode scalar value in every single position of a short notation string (the other
+/// positions hold valid symbols): c, "a"c, c"1", c"1n", "a"c"n", "a1"c - about 6.7 M strings.
+pub fn unicode_position_sweep(worker: usize, workers: usize, sink: &mut Sink) {
+    let mut cp = worker as u32;
+    while cp <= 0x10FFFF {
+        if let Some(c) = char::from_u32(cp) {
+            let forms = [format!("{}", c), format!("a{}", c), format!("{}1", c), format!("{}1n", c), format!("h{}s", c), format!("a1{}", c), format!("{}8", c), format!("g{}", c)];
+            for f in forms.iter() {
+                judge_notation(f, sink);
+                sink.count("unicode_position_sweep_strings");
+            }
+        }
+        cp += workers as u32;
+    }
+}
+
 pub fn run_w10(random_n: u64, seed: u64, worker: usize, workers: usize, sink: &mut Sink) {
+    unicode_position_sweep(worker, workers, sink);
     if worker == 0 {
         judge_value_spaces(sink);
     }
